@@ -76,3 +76,67 @@ func layered(i int) *Case {
 	}
 	return c
 }
+
+// emptied builds three-layer cases in which the middle layer spells an attribute as an empty
+// sequence and a further layer (which does not mention the attribute) follows: for the attributes
+// replaced wholesale (command, entrypoint, healthcheck.test) the empty value is the result, for
+// the appended sequences the empty layer adds nothing. Either way the layers after it must load.
+func emptied(i int) *Case {
+	type attr struct {
+		path    string // "" = directly under the service
+		key     string
+		vals    string // flow sequence of the first layer
+		replace bool
+	}
+	attrs := []attr{
+		{"", "command", `["run", "--fast"]`, true},
+		{"", "entrypoint", `["/bin/entry", "-x"]`, true},
+		{"healthcheck", "test", `["CMD", "true"]`, true},
+		{"", "security_opt", `["label=disable"]`, false},
+		{"", "extra_hosts", `["h1=10.0.0.1"]`, false},
+		{"", "group_add", `["mail"]`, false},
+		{"", "dns", `["8.8.8.8"]`, false},
+		{"", "dns_search", `["example.com"]`, false},
+		{"", "cap_add", `["NET_ADMIN"]`, false},
+		{"", "cap_drop", `["ALL"]`, false},
+		{"", "expose", `["8080"]`, false},
+		{"", "devices", `["/dev/a:/dev/b"]`, false},
+		{"", "tmpfs", `["/run"]`, false},
+		{"", "profiles", `["dev"]`, false},
+		{"", "dns_opt", `["ndots:1"]`, false},
+		{"", "external_links", `["other:alias"]`, false},
+	}
+	a := attrs[i%len(attrs)]
+	firstHas := (i/len(attrs))%2 == 0 || a.replace // appended sequences also with nothing before the empty layer
+	asDocs := (i/(2*len(attrs)))%2 == 1
+	line := func(v string) string {
+		if a.path != "" {
+			return fmt.Sprintf("    %s:\n      %s: %s\n", a.path, a.key, v)
+		}
+		return fmt.Sprintf("    %s: %s\n", a.key, v)
+	}
+	l1 := "services:\n  s:\n    image: img\n"
+	if firstHas {
+		l1 += line(a.vals)
+	}
+	l2 := "services:\n  s:\n" + line("[]")
+	l3 := "services:\n  s:\n    labels: {tier: last}\n"
+	target := "services:\n  s:\n    image: img\n    labels: {tier: last}\n"
+	switch {
+	case a.replace:
+		target += line("[]")
+	case firstHas:
+		target += line(a.vals)
+	}
+	c := &Case{Focus: "services." + a.key + " (empty sequence followed by a further layer)", Parts: 3}
+	c.Target = ld.Case{Files: map[string]string{"compose.yaml": target}, ComposeFiles: []string{"compose.yaml"}}
+	if asDocs {
+		c.Carrier = "documents"
+		c.Split = ld.Case{Files: map[string]string{"compose.yaml": l1 + "---\n" + l2 + "---\n" + l3}, ComposeFiles: []string{"compose.yaml"}}
+	} else {
+		c.Carrier = "files"
+		c.Split = ld.Case{Files: map[string]string{"compose.yaml": l1, "compose.1.yaml": l2, "compose.2.yaml": l3},
+			ComposeFiles: []string{"compose.yaml", "compose.1.yaml", "compose.2.yaml"}}
+	}
+	return c
+}
